@@ -157,6 +157,12 @@ class C19(Check):
                 prog.append(("return", g.expr(self.rng.choice("idbs"), 1, set())))
             combos = (0, 1, 2, 3, 4) if k % 5 == 0 else (k % 4, (k + 1) % 4)
             prog_variants("random", prog=prog, args=ARGVECS[k % len(ARGVECS)], combos=combos)
+        # A2. long source lines (the file / stdin reader hands the scanner 1023-byte pieces): string literals of
+        # 1000..3100 characters on one line, lengths printed and the text itself printed
+        for ln in (1000, 1010, 1021, 1022, 1023, 1024, 1025, 2045, 2046, 2047, 3000, 3100):
+            body = "".join(chr(97 + (i * 7) % 26) for i in range(ln))
+            prog = [("print", [("call", "strlen", [S(body)])]), ("print", [S(body)]), ("print", [S("end")])]
+            prog_variants("longline", prog=prog, combos=(0, 1, 4) if quick else (0, 1, 2, 3, 4))
         # B. one program per returned value type
         for src_e, sx_e in RETURNS:
             src = 'print "out";\nreturn %s;\n' % src_e
